@@ -5,6 +5,7 @@ import (
 	"context"
 	"encoding/json"
 	"fmt"
+	"hash/fnv"
 	"io/ioutil"
 	"log"
 	"os"
@@ -39,10 +40,26 @@ type Job struct {
 	DataType      gdbi.DataType
 	MarkTypes     map[string]gdbi.DataType
 	StepChecksums []string
+	dir           string // directory holding the job's results and status files
 }
 
+// jobKey identifies a job by the exact graph name and job id.
 func jobKey(graph, job string) string {
-	return fmt.Sprintf("%s/%s", sanitize.Name(graph), sanitize.Name(job))
+	return fmt.Sprintf("%s/%s", graph, job)
+}
+
+// graphDirName returns the name of the directory that holds the jobs of a graph: the
+// sanitized graph name if that is the graph name itself, otherwise the sanitized name
+// followed by a hash of the exact one. Distinct graphs never share a directory and
+// the name is never empty.
+func graphDirName(graph string) string {
+	s := sanitize.Name(graph)
+	if s == graph && s != "" && s != "." {
+		return s
+	}
+	h := fnv.New64a()
+	h.Write([]byte(graph))
+	return fmt.Sprintf("%s-%016x", s, h.Sum64())
 }
 
 func NewFSJobStorage(path string) *FSResults {
@@ -54,9 +71,6 @@ func NewFSJobStorage(path string) *FSResults {
 	matches, _ := filepath.Glob(statusGlob)
 	for _, j := range matches {
 		jobDir := filepath.Dir(j)
-		graphDir := filepath.Dir(jobDir)
-		jobName := filepath.Base(jobDir)
-		graphName := filepath.Base(graphDir)
 		file, err := os.Open(j)
 		if err == nil {
 			sData, err := ioutil.ReadAll(file)
@@ -65,8 +79,9 @@ func NewFSJobStorage(path string) *FSResults {
 				job := Job{}
 				err := json.Unmarshal(sData, &job)
 				if err == nil {
-					log.Printf("Found job %s %s", graphName, jobName)
-					out.jobs.Store(jobKey(graphName, jobName), &job)
+					log.Printf("Found job %s %s", job.Status.Graph, job.Status.Id)
+					job.dir = jobDir
+					out.jobs.Store(jobKey(job.Status.Graph, job.Status.Id), &job)
 				} else {
 					log.Printf("Error Unmarshaling job data: %s", err)
 				}
@@ -119,7 +134,7 @@ func (fs *FSResults) Search(graph string, Query []*gripql.GraphStatement) (chan 
 }
 
 func (fs *FSResults) Spool(graph string, stream *Stream) (string, error) {
-	graphDir := filepath.Join(fs.BaseDir, sanitize.Name(graph))
+	graphDir := filepath.Join(fs.BaseDir, graphDirName(graph))
 	if _, err := os.Stat(graphDir); os.IsNotExist(err) {
 		os.MkdirAll(graphDir, 0700)
 	}
@@ -143,6 +158,7 @@ func (fs *FSResults) Spool(graph string, stream *Stream) (string, error) {
 		DataType:      stream.DataType,
 		MarkTypes:     stream.MarkTypes,
 		StepChecksums: cs,
+		dir:           spoolDir,
 	}
 	fs.jobs.Store(jobKey(graph, jobName), job)
 	tbStream := MarshalStream(stream.Pipe, 4) //TODO: make worker count configurable
@@ -186,7 +202,7 @@ func (fs *FSResults) Stream(ctx context.Context, graph, id string) (*Stream, err
 	if v, ok := fs.jobs.Load(jobKey(graph, id)); ok {
 		vJob := v.(*Job)
 		if vJob.Status.State == gripql.JobState_COMPLETE {
-			resultFile := filepath.Join(fs.BaseDir, sanitize.Name(graph), sanitize.Name(id), "results")
+			resultFile := filepath.Join(vJob.dir, "results")
 			results, err := os.Open(resultFile)
 			if err != nil {
 				return nil, err
@@ -227,8 +243,7 @@ func (fs *FSResults) Delete(graph, id string) error {
 			return fmt.Errorf("Job cancel not yet implemented")
 		}
 		fs.jobs.Delete(jobKey(graph, id))
-		jobDir := filepath.Join(fs.BaseDir, sanitize.Name(graph), sanitize.Name(id))
-		os.RemoveAll(jobDir)
+		os.RemoveAll(vJob.dir)
 	}
 	return nil
 }
